@@ -473,7 +473,8 @@ pub fn plan(pre: &Snap, root: &[u8], inv: &Inv) -> Plan {
     // a regular file mapped onto a path that already holds a symbolic link is written *through* the link
     // (as cp does): the same excluded shape, one level down
     for m in &mapped {
-        if m.kind == K::F && pre.get(&m.dst).map(|x| x.kind == K::L).unwrap_or(false) {
+        // (with --no-clobber nothing is written at all: those cases stay modelled, C08 needs them)
+        if !inv.no_clobber && m.kind == K::F && pre.get(&m.dst).map(|x| x.kind == K::L).unwrap_or(false) {
             return Plan::Unmodelled("regular file mapped onto an existing symlink in the destination".into());
         }
     }
